@@ -18,7 +18,7 @@ func init() {
 	core.Register(&core.Check{
 		ID:    "C05",
 		Level: "exploration",
-		Rule: "programs without any domain filter: (1) the operand-source x context products of C01 with the full operand list (ill-typed and nil operands included); (2) the adversarial product: every binary and unary operator over a 16-value alphabet of every kind and extreme value (zero divisors, indices -1/#s/2^63-1, shift counts -1/63/64/65) at operand depth 0/1/2 left and right, every value as if/while condition, as callee, as index and slice bound, wrong arities for user functions and all eight built-ins, aton of non-numbers; (3) every statement of at most 4 (quick) / 5 (thorough) nodes over the adversarial leaf alphabet, at top level and as a function body; (4) every token sequence of length <= 4 (quick) / 5 (thorough) over a 27-token alphabet that the parser accepts; (5) the generator x body x placement family of C02 (quick: every fourth member); (7) every pair of statements of the C08 alphabet (failures of every kind) followed by the C08 observers; (6) the statement-position product (every statement form x every body shape x 27 statement contexts). " +
+		Rule: "programs without any domain filter: (1) the operand-source x context products of C01 with the full operand list (ill-typed and nil operands included); (2) the adversarial product: every binary and unary operator over a 16-value alphabet of every kind and extreme value (zero divisors, indices -1/#s/2^63-1, shift counts -1/63/64/65) at operand depth 0/1/2 left and right, every value as if/while condition, as callee, as index and slice bound, wrong arities for user functions and all eight built-ins, aton of non-numbers; (3) every statement of at most 4 (quick) / 5 (thorough) nodes over the adversarial leaf alphabet, at top level and as a function body; (4) every token sequence of length <= 4 (quick) / 5 (thorough) over a 27-token alphabet that the parser accepts; (5) the generator x body x placement family of C02 (quick: every fourth member); (7) every pair of statements of the C08 alphabet (failures of every kind) followed by the C08 observers; (6) the statement-position product (every statement form x every body shape x 27 statement contexts); (8) every parameter list of length <= 3 over two names, repeated names included, x 14 bodies x calls of every arity. " +
 			"Each program is compiled and run on a fresh real VM under instruction fuel: a host panic, an undocumented error class or (inside the described domain) non-termination is a violation. distinct = distinct session text; non-trivial = sessions that executed at least one statement to a value or a documented runtime error",
 		Assumptions: []string{
 			"in-process execution with recover(): a Go panic is the observation of an internal fault; fatal runtime errors kill the worker and are attributed through the progress record",
@@ -192,6 +192,43 @@ func c05Run(w *core.W) {
 				runSession(w, st, opt)
 				if w.Expired("time budget reached") {
 					return
+				}
+			}
+		}
+	}
+
+	// (8) every parameter list of length <= 3 over two names (repeated names included: the grammar accepts them) x
+	// bodies that read, assign, add locals, create closures and loop over the parameters x calls of every arity 0..4
+	w.Family("parameter-lists")
+	{
+		bodies := []string{"a", "b", "[a, b]", "{\n  a = \"x\"\n}", "{\n  a = \"x\"\n  [a, b]\n}", "{\n  c = 5\n  [a, c]\n}", "() -> a",
+			"{\n  g = () -> [a, b]\n  g()\n}", "for a <- elems([1, 2]) a", "{\n  c = 1\n  d = 2\n  e = 3\n  [a, b, c, d, e]\n}",
+			"{\n  b = a\n  a = b\n}", "{\n  for a, b <- elems([1]), elems([2]) c = a\n  c\n}", "(a, a) -> a", "if a b else a"}
+		names := []string{"a", "b"}
+		var lists [][]string
+		lists = append(lists, nil)
+		for n := 1; n <= 3; n++ {
+			for code := 0; code < 1<<n; code++ {
+				l := []string{}
+				for i := 0; i < n; i++ {
+					l = append(l, names[(code>>i)&1])
+				}
+				lists = append(lists, l)
+			}
+		}
+		for _, pl := range lists {
+			for _, body := range bodies {
+				def := "f = (" + strings.Join(pl, ", ") + ") -> " + body
+				for ar := 0; ar <= 4; ar++ {
+					if !w.Thorough() && ar != len(pl) && ar != len(pl)+1 && ar != 0 {
+						continue
+					}
+					args := []string{"1", "2", "3", "4"}[:ar]
+					call := "f(" + strings.Join(args, ", ") + ")"
+					runSession(w, []string{"id = (x) -> x", def, call, "r = " + call, "[id(" + call + "), 7]", "h = () -> " + call, "h()", "for q <- fromto(0, 2) " + call, "id(5)"}, c05Opt)
+					if w.Expired("time budget reached") {
+						return
+					}
 				}
 			}
 		}
